@@ -205,11 +205,11 @@ prop("C08",
           "methods, empty and random bodies, MPD uploads. Oracle: the handler returns within 10 s without panic with a deliberate status, the "
           "channel goroutine drains its queue (hook VerifQuiesce), the process survives, and a well-formed stream uploaded afterwards on a "
           "fresh channel is accepted and stored.",
-     quick=dict(shards=2, timeout=400), thorough=dict(shards=16, timeout=1500, pct=200), fuzz=dict(target="FuzzC08Server", seconds=150, workers=16), crash_is_violation=True, rlimit_as_gb=6,
+     quick=dict(shards=2, timeout=400), thorough=dict(shards=16, timeout=1500, pct=200), fuzz=dict(target="FuzzC08Server", seconds=150, workers=16), crash_is_violation=True, rlimit_as_gb=16,
      assumptions=COMMON + ["traffic patterns are requested at instants in up/down states only (slow/hang sleep by design)",
                            "upload bodies: declared top-level box sizes between 16 MiB and the 32-bit limit are cut to 24 bits (the chunk parser allocates what a header declares, DESIGN O6); "
                            "declared table counts above 10^6 are cut to 10^6 (known finding KF-C08-rx-declared-counts, excluded by construction and counted); Content-Length is honest",
-                           "the C08 processes run under a 6 GiB address-space limit so that a runaway allocation ends the process under test, not the machine"])
+                           "the C08 processes run under a 16 GiB address-space limit so that a runaway allocation ends the process under test, not the machine"])
 
 prop("C17",
      rule="rapid draws a channel of 1-4 tracks (master video, second video, audio, wvtt text rescaled to 1000 Hz), segment duration 1/2/3.84 s, "
